@@ -1768,3 +1768,212 @@ def fam_LONG(tier):
         src = f"export function f(int a) -> int {{ {loops} return a; }}\n"
         if n <= 10:
             yield {"fam": "LONG", "desc": f"nested-loops={n}", "src": src, "units": [{"funcs": [], "entry": "f", "inputs": [({"a": 0}, {})]}]}
+
+
+# =============================================================================================
+# W: the wasm backend's scalar straight-line subset (C06, C07) + constructs outside it
+# =============================================================================================
+W_OPS = ["+", "-", "*", "/", "==", "<", ">"]
+W_INT_CONSTS = [0, 1, -1, 63, 64, -64, -65, 127, 128, 8191, 8192, -8192, -8193, 1 << 20, (1 << 31) - 1, -(1 << 31) + 1]
+W_FLOAT_CONSTS = [0.5, 1.0, 2.0, 0.25, 1.5, 1024.0, 3.0, 0.0]
+W_INT_INPUTS = [-(1 << 31) + 1, -65, -64, -1, 0, 1, 63, 64, (1 << 31) - 1]
+W_FLOAT_INPUTS = [-1.5, 0.0, 0.5, 2.0]
+
+
+def w_signatures(maxar):
+    for k in range(0, maxar + 1):
+        for sig in itertools.product(("int", "float"), repeat=k):
+            yield sig
+
+
+def w_trees(n, leaves, ops):
+    if n == 0:
+        for l in leaves:
+            yield l
+        return
+    for k in range(n):
+        for op in ops:
+            for l in w_trees(k, leaves, ops):
+                for r in w_trees(n - 1 - k, leaves, ops):
+                    yield ("bin", op, l, r)
+
+
+def _w_inputs(sig):
+    doms = [W_INT_INPUTS if t == "int" else W_FLOAT_INPUTS for t in sig]
+    if len(sig) <= 2:
+        combos = list(itertools.product(*doms))
+    else:
+        # pairwise: every pair of positions sees every pair of values at least once (rotating third)
+        combos = []
+        for i, a in enumerate(doms[0]):
+            for j, b in enumerate(doms[1]):
+                combos.append((a, b, doms[2][(i + j) % len(doms[2])]))
+        for j, b in enumerate(doms[1]):
+            for k, c in enumerate(doms[2]):
+                combos.append((doms[0][(j + k) % len(doms[0])], b, c))
+    return [({f"p{i}": v for i, v in enumerate(vals)}, {}) for vals in combos]
+
+
+def _w_pack(sig, trees, start, per_module):
+    tenv = {f"p{i}": t for i, t in enumerate(sig)}
+    params = [(t, f"p{i}") for i, t in enumerate(sig)]
+    units = []
+    for j, e in enumerate(trees):
+        rt = stype(e, tenv)
+        name = f"w{j}"
+        units.append({"funcs": [func(name, params, rt, [("ret", e)])], "entry": name, "inputs": _w_inputs(sig),
+                      "desc": "ops=" + ",".join(sorted(set(ops_of(e)))) + ";sig=" + "".join(t[0] for t in sig) + ";res=" + rt[0]})
+    return {"fam": "W", "desc": "wasm-subset", "units": units, "mode": "min"}
+
+
+@family("W")
+def fam_W(tier):
+    per_module = 12
+    idx = 0
+    for sig in w_signatures(3):
+        maxn = 2 if (len(sig) <= 2 or tier == "thorough") else 1
+        params = [("var", f"p{i}") for i in range(len(sig))]
+        for n in range(0, maxn + 1):
+            buf = []
+            count = 0
+            # constant slots take the next boundary constant in turn, so every constant meets every operator position
+            leaves_base = list(params)
+            for e in _w_const_trees(n, leaves_base):
+                buf.append(e)
+                if len(buf) == per_module:
+                    yield (_w_pack, sig, buf, idx, per_module)
+                    buf = []
+            if buf:
+                yield (_w_pack, sig, buf, idx, per_module)
+            idx += 1
+
+
+def _w_const_trees(n, params):
+    """Trees with exactly n operators over params and constant slots; each constant slot takes the next boundary constant."""
+    counter = [0]
+
+    def const(kind):
+        counter[0] += 1
+        if kind == "i":
+            return lit(W_INT_CONSTS[counter[0] % len(W_INT_CONSTS)])
+        return lit(W_FLOAT_CONSTS[counter[0] % len(W_FLOAT_CONSTS)])
+
+    def rec(k):
+        if k == 0:
+            for p in params:
+                yield p
+            yield ("ci",)
+            yield ("cf",)
+            return
+        for a in range(k):
+            for op in W_OPS:
+                for l in rec(a):
+                    for r in rec(k - 1 - a):
+                        yield ("bin", op, l, r)
+
+    def fill(e):
+        if e[0] == "ci":
+            return const("i")
+        if e[0] == "cf":
+            return const("f")
+        if e[0] == "bin":
+            return ("bin", e[1], fill(e[2]), fill(e[3]))
+        return e
+    for e in rec(n):
+        yield fill(e)
+
+
+# constructs outside the subset: must agree or be refused; each is observable (dropping it changes the result)
+W_OUTSIDE = [
+    ("local-variable", "export function f(int a) -> int { int v = a + 1; return v * 2; }"),
+    ("store-to-parameter", "export function f(int a) -> int { a = a + 5; return a; }"),
+    ("compound-store-to-parameter", "export function f(int a, int b) -> int { b += a; return b * 2; }"),
+    ("global-read", "int g;\nexport function f(int a) -> int { return a + g; }"),
+    ("global-write", "int g;\nexport function f(int a) -> int { g = a; return g + 1; }"),
+    ("if", "export function f(int a) -> int { if (a > 0) { return 1; } return 2; }"),
+    ("if-else", "export function f(int a) -> int { if (a > 0) { a = a + 1; } else { a = a - 1; } return a; }"),
+    ("for", "export function f(int a) -> int { for (int i = 0; i < 3; ++i) { a = a + 2; } return a; }"),
+    ("while", "export function f(int a) -> int { while (a < 10) { a = a + 3; } return a; }"),
+    ("do", "export function f(int a) -> int { do { a = a + 3; } while (a < 10) return a; }"),
+    ("call", "function g(int p) -> int { return p * 3; }\nexport function f(int a) -> int { return g(a) + 1; }"),
+    ("le", "export function f(int a, int b) -> int { return a <= b; }"),
+    ("ge", "export function f(int a, int b) -> int { return a >= b; }"),
+    ("ne", "export function f(int a, int b) -> int { return a != b; }"),
+    ("mod", "export function f(int a, int b) -> int { return a % (b * b + 3); }"),
+    ("and", "export function f(int a, int b) -> int { return a && b; }"),
+    ("or", "export function f(int a, int b) -> int { return a || b; }"),
+    ("void-function", "export function f(int a) -> void { a = a + 1; }"),
+    ("void-return", "export function f(int a) -> void { return; }"),
+    ("pre-increment", "export function f(int a) -> int { ++a; return a; }"),
+    ("post-increment-value", "export function f(int a) -> int { return a++ + a; }"),
+    ("float-to-int-argument", "export function f(float x) -> int { int[2] arr; arr[0] = 4; arr[1] = 9; return arr[x]; }"),
+    ("int-to-float", "export function f(int a, float x) -> float { return a + x; }"),
+    ("float-compare", "export function f(float x, float y) -> int { return x < y; }"),
+    ("float-compare-mixed", "export function f(int a, float y) -> int { return a > y; }"),
+    ("uint-div", "export function f(uint a, uint b) -> uint { return a / (b + 1); }"),
+    ("uint-compare", "export function f(uint a, uint b) -> int { return a < b; }"),
+    ("vector", "export function f(float4 v) -> float { return v[1]; }"),
+    ("vector-arith", "export function f(float a) -> float { float2 v = float2(a, a); return v.x + v.y; }"),
+    ("matrix", "export function f(float3x3 m) -> float { return m[1][1]; }"),
+    ("array", "export function f(int a) -> int { int[2] arr; arr[1] = a; return arr[1]; }"),
+    ("struct", "struct SS { int fld; }\nexport function f(int a) -> int { SS s; s.fld = a; return s.fld; }"),
+    ("swizzle", "export function f(float2 v) -> float { return v.y; }"),
+    ("unused-expression-statement", "export function f(int a) -> int { a * 2; return a + 1; }"),
+    ("two-returns", "export function f(int a) -> int { return a + 1; return a + 2; }"),
+    ("dead-code-after-return", "export function f(int a) -> int { return a; a = a + 1; }"),
+    ("non-exported-helper-present", "function g(int p) -> int { return p * 3; }\nexport function f(int a) -> int { return a + 1; }"),
+    ("float-constant", "export function f(float x) -> float { return x * 2.5; }"),
+    ("float-div", "export function f(float x, float y) -> float { return x / y; }"),
+    ("int-div-negative", "export function f(int a, int b) -> int { return a / b; }"),
+    ("assignment-as-value", "export function f(int a, int b) -> int { return (a + 1) * (b + 2); }"),
+]
+
+
+def w_outside_case(name, src):
+    import re
+    m = re.search(r"export function f\(([^)]*)\) -> (\S+)", src)
+    params = [tuple(p.strip().split()) for p in m.group(1).split(",") if p.strip()]
+    vals = {"int": [-7, 0, 3, 12], "uint": [0, 3, 12], "float": [-1.5, 0.5, 2.0], "float4": [[1.0, 2.0, 3.0, 4.0]], "float2": [[1.5, 2.5]], "float3x3": [[[1.0, 2.0, 3.0], [4.0, 5.0, 6.0], [7.0, 8.0, 9.0]]]}
+    doms = [vals[t] for t, n in params]
+    inputs = [({n: v for (t, n), v in zip(params, combo)}, ({"g": 5} if "int g;" in src else {})) for combo in itertools.product(*doms)]
+    return {"fam": "W", "desc": f"outside-subset;{name}", "src": src + "\n", "sig": [t for t, n in params], "ret": m.group(2),
+            "units": [{"funcs": [], "entry": "f", "inputs": inputs}]}
+
+
+@family("WO")
+def fam_WO(tier):
+    for name, src in W_OUTSIDE:
+        yield w_outside_case(name, src)
+
+
+# shape grid for validity (C07): functions x parameter patterns x value-type interleavings x result kinds
+@family("WS")
+def fam_WS(tier):
+    maxlen = 4 if tier == "quick" else 6
+    pats = [""] + ["".join(p) for L in range(1, maxlen + 1) for p in itertools.product("if", repeat=L)]
+    sigs = list(w_signatures(2 if tier == "quick" else 4))
+    for si, sig in enumerate(sigs):
+        for pi, pat in enumerate(pats):
+            for ret in ("int", "float", "void"):
+                if tier == "quick" and (si + pi) % 3 != ("int", "float", "void").index(ret) and len(pat) > 2:
+                    continue
+                # body: one expression statement per pattern letter producing int / float IR values
+                stmts = []
+                for k, c in enumerate(pat):
+                    stmts.append(f"{k + 1} + {k + 2};" if c == "i" else f"{k + 1}.5 + 0.5;")
+                params = ", ".join(f"{t} p{i}" for i, t in enumerate(sig))
+                if ret == "void":
+                    tail = "return;" if (pi % 2) else ""
+                else:
+                    lit_ = "7" if ret == "int" else "7.5"
+                    same = [f"p{i}" for i, t in enumerate(sig) if t == ret]
+                    tail = f"return {same[0]} + {lit_};" if same else f"return {lit_};"
+                nfun = 1 + (si + pi) % 3
+                funcs = []
+                for fi in range(nfun):
+                    exp = "export " if (fi == 0 or (pi + fi) % 2) else ""
+                    funcs.append(f"{exp}function f{fi}({params}) -> {ret} {{ {' '.join(stmts)} {tail} }}")
+                src = "\n".join(funcs) + "\n"
+                vals = {"int": 3, "float": 1.5}
+                yield {"fam": "WS", "desc": f"shape;params={len(sig)};values={len(pat)};ret={ret};functions={nfun}", "src": src, "sig": list(sig), "ret": ret,
+                       "units": [{"funcs": [], "entry": "f0", "inputs": [({f"p{i}": vals[t] for i, t in enumerate(sig)}, {})]}]}
